@@ -56,6 +56,10 @@ var vpC17Cases = []vpC17Case{
 	{directive: "SecRuleUpdateTargetById 1 \"!ARGS:/^a/\"", repl: map[string]string{"%T1": "ARGS|!ARGS:/^a/"}},
 	{directive: "ctl:ruleRemoveTargetById=2;REQUEST_HEADERS:/^X-K/", ctl: true, base: map[string]string{"%T2": "REQUEST_HEADERS"}, repl: map[string]string{"%T2": "REQUEST_HEADERS|!REQUEST_HEADERS:/^X-K/"}},
 	{directive: "SecRuleUpdateTargetById 2 \"!REQUEST_HEADERS:/^X-K/\"", base: map[string]string{"%T2": "REQUEST_HEADERS"}, repl: map[string]string{"%T2": "REQUEST_HEADERS|!REQUEST_HEADERS:/^X-K/"}},
+	// two regex exclusions (and a regex one followed by a string one) for the same rule and collection
+	{directive: "ctl:ruleRemoveTargetById=1;ARGS:/^a/,ctl:ruleRemoveTargetById=1;ARGS:/^b/", ctl: true, repl: map[string]string{"%T1": "ARGS|!ARGS:/^a/|!ARGS:/^b/"}},
+	{directive: "ctl:ruleRemoveTargetByTag=ta;ARGS:/^x/,ctl:ruleRemoveTargetByTag=ta;ARGS:/^b/", ctl: true, repl: map[string]string{"%T1": "ARGS|!ARGS:/^x/|!ARGS:/^b/", "%T3": "ARGS|!ARGS:/^x/|!ARGS:/^b/"}},
+	{directive: "ctl:ruleRemoveTargetById=1;ARGS:/^x/,ctl:ruleRemoveTargetById=1;ARGS:a", ctl: true, repl: map[string]string{"%T1": "ARGS|!ARGS:/^x/|!ARGS:a"}},
 	{directive: "ctl:ruleRemoveTargetByTag=tb;REQUEST_HEADERS:X-K", ctl: true, base: map[string]string{"%T2": "REQUEST_HEADERS"}, repl: map[string]string{"%T2": "REQUEST_HEADERS|!REQUEST_HEADERS:X-K"}},
 }
 
